@@ -19,6 +19,7 @@ func init() {
 			"R4 FireChannelActive is fired from exactly one site, not in a loop, before the read loop, in a frame whose deferred start-up callback runs after it, and serveChannel returns only after that callback closed its latch; " +
 			"R5 FireChannelRead is fired from exactly one site, synchronously in the read loop, whose function is started from exactly one site; pipeline.ServeChannel asserts single attachment; " +
 			"R6 every exit of the read loop closes the channel, each iteration tests the channel context, a non-timeout net.Error found by errors.As closes the channel. " +
+			"ALSO (rules added while testing against independent changes): HandlerContext.Close closes the channel synchronously with its own argument; built-in pipeline handlers forward active/inactive on every path, once; wrappers' Close reaches the connection; imported rules are listed in RULES.md. " +
 			"DOES NOT DECIDE: that transport failures surface through codecs (C08), that transport.Close unblocks a blocked read, timing of the bounded wait.",
 		Assumptions: []string{"transport.Close unblocks a pending Read (transport contract)"},
 		Run:         runC05,
